@@ -484,6 +484,9 @@ func (s *Sched) Run() {
 	s.cur = nil
 }
 
+// Killed reports whether the current execution is over and its threads are being unwound.
+func Killed() bool { return S != nil && S.killed }
+
 func (s *Sched) NumThreads() int { return len(s.threads) }
 
 // SetUser / User attach world data to the execution.
